@@ -12,6 +12,16 @@
      (`bearing_scanner_total`);
    * the retry loop needs at most n+1 passes and idle passes are bounded (`retry_*`), loops stop at the
      limit and depth is bounded (C17);
+   * **the control skeleton as a whole terminates** (`control_skeleton_terminates`, Proofs/CtlTerm.lean):
+     for every evaluator, state and document there is a fuel from which on the result of
+     `process_events` / `transform` is constant and is not the fuel artefact - by induction on the
+     distance to the depth limit (every nested call chain, `<reuse>` of arbitrary templates included,
+     passes `generate_events`' depth check), within a level by the loop limit, the list of a `<for>`,
+     and the measure pending + (limit + 1 - idle passes) of the retry loop. Hypothesis: `<config>`
+     elements carry no `id` (are not reuse templates) and set limits by literals bounded by some M.
+     WITHOUT it the statement is false, in the model and in the code: a `<config id=c loop-limit="$n">`
+     template instantiated by `<reuse>` inside `<loop while=1 loop-var=n>` raises the limit on every pass
+     and never ends (`config_template_defeats_the_limits`; observation recorded in DESIGN.md 12.3);
    * `panic_sites_reviewed` / `recursion_reviewed`: the tables of unwrap / expect / panic! / index sites and
      of syntactically recursive functions, regenerated from /repo/src on every run, equal the lists
      reviewed below. A new site makes the theorem fail and has to be looked at.
@@ -23,11 +33,75 @@ import Svgdx.Proofs.ExprDepth
 import Svgdx.Proofs.Bearing
 import Svgdx.Proofs.ExprFuel
 import Svgdx.Proofs.Sched
+import Svgdx.Proofs.CtlTerm
 import Svgdx.Props.C10
 import Svgdx.Gen.Audit
 
 namespace Svgdx.Props.C01
 open Svgdx
+
+
+/-! ### the control skeleton -/
+
+/-- **`process_events` terminates**: for every evaluator, every state whose limits are at most `M` and
+    whose stored templates are well-behaved (`Good`), and every document whose `<config>` elements have no
+    `id` and set limits by literals of at most `M` (`nodesOk`), some fuel suffices and every larger fuel
+    gives the same result: the model has no divergence to hide behind its fuel argument -/
+theorem control_skeleton_terminates {ρ : Type} (ev : Ctl.Evalr ρ) (M : Nat) (st : Ctl.St ρ) (ks : Ctl.Nodes)
+    (hst : Ctl.Good M st) (hks : Ctl.nodesOk M ks = true) :
+    ∃ F, (Ctl.processNodes ev F st ks).2 ≠ .error .fuel ∧
+      ∀ f, F ≤ f → Ctl.processNodes ev f st ks = Ctl.processNodes ev F st ks :=
+  Ctl.processNodes_stable ev M st ks hst hks
+
+/-- the same for a whole transform (`Transformer::transform` up to post-processing) -/
+theorem transform_terminates {ρ : Type} (ev : Ctl.Evalr ρ) (M : Nat) (st : Ctl.St ρ) (ks : Ctl.Nodes)
+    (hst : Ctl.Good M st) (hks : Ctl.nodesOk M ks = true) :
+    ∃ F, (Ctl.transformDoc ev F st ks).2.2 ≠ .error .fuel ∧
+      ∀ f, F ≤ f → Ctl.transformDoc ev f st ks = Ctl.transformDoc ev F st ks :=
+  Ctl.transformDoc_stable ev M st ks hst hks
+
+/-- documents without any `<config>` element: no hypothesis on limits at all (`_partial`: the extra
+    hypothesis is the absence of `config`, in the document and in the templates already stored) -/
+theorem control_skeleton_terminates_partial {ρ : Type} (ev : Ctl.Evalr ρ) (st : Ctl.St ρ) (ks : Ctl.Nodes)
+    (hks : Ctl.nodesNoCfg ks = true)
+    (hst : ∀ t ∈ st.originals, t.2.1.name ≠ cs!"config" ∧ Ctl.kidsNoCfg t.2.2 = true) :
+    ∃ F, (Ctl.processNodes ev F st ks).2 ≠ .error .fuel ∧
+      ∀ f, F ≤ f → Ctl.processNodes ev f st ks = Ctl.processNodes ev F st ks :=
+  Ctl.processNodes_terminates_partial ev st ks hks hst
+
+/-- **one loop activation runs its body at most limit + 1 times**: from iteration `M` on, a pass is
+    followed by the loop-limit error, whatever the tests say -/
+theorem loop_body_runs_bounded {ρ : Type} (ev : Ctl.Evalr ρ) (M f : Nat) (st : Ctl.St ρ) (ks : Ctl.Nodes)
+    c w u n v s i acc bb (hg : Ctl.Good M st) (hk : Ctl.nodesOk M ks = true) (hi : M ≤ i) :
+    Ctl.loopIter ev (f + 1) st ks c w u n v s i acc bb =
+      Ctl.seq (Ctl.preTest ev st c w i) fun st go =>
+        if !go then (st, .ok (acc, bb))
+        else Ctl.seq (Ctl.processNodes ev f (Ctl.bindLoopVar st n v) ks) fun st _ =>
+          (st, .error (.loopLimit (i + 1) st.cfg.loopLimit)) :=
+  Ctl.loopIter_last_pass ev M f st ks c w u n v s i acc bb hg hk hi
+
+/-- **one activation of the retry loop makes at most pending + limit + 1 passes**: each pass ends in an
+    error or strictly decreases pending + (M + 1 - idle passes) -/
+theorem retry_passes_decrease_measure {ρ : Type} (ev : Ctl.Evalr ρ) (M f : Nat) (st : Ctl.St ρ) (t : Ctl.Tag)
+    (ts : List Ctl.Tag) outs bb (hg : Ctl.Good M st) (hts : ∀ x ∈ t :: ts, Ctl.nodeOk M x.node = true) :
+    (∃ er, (Ctl.retry ev (f + 1) st (t :: ts) outs bb).2 = .error er) ∨
+    ∃ st' ts' outs' bb', Ctl.retry ev (f + 1) st (t :: ts) outs bb = Ctl.retry ev f st' ts' outs' bb' ∧
+      Ctl.retryMeasure M st' ts' < Ctl.retryMeasure M st (t :: ts) ∧ Ctl.Good M st' ∧
+      ∀ x ∈ ts', Ctl.nodeOk M x.node = true :=
+  Ctl.retry_measure_decreases ev M f st t ts outs bb hg hts
+
+/-- the hypotheses are satisfiable: a document with a variable, a `<config loop-limit="50"/>`, a forward
+    reference, a group, a count loop, a while loop and a reuse meets them, and runs to completion -/
+theorem control_skeleton_terminates_instance :
+    Ctl.Good 1000 Ctl.TermExample.st0 ∧ Ctl.nodesOk 1000 Ctl.TermExample.doc = true ∧
+    ∃ f, (Ctl.processNodes Ctl.simpleEvalr f Ctl.TermExample.st0 Ctl.TermExample.doc).2 ≠ .error .fuel :=
+  ⟨Ctl.TermExample.st0_good, Ctl.TermExample.doc_ok, Ctl.TermExample.doc_terminates⟩
+
+/-- why the hypothesis on `<config>` is needed: a config TEMPLATE whose limit is an expression, reused in
+    a `while` loop, is outside `nodesOk` for every M, and the model runs out of any fuel tried while the
+    limit climbs with it (the real binary does not return either) -/
+theorem config_template_defeats_the_limits (M : Nat) : Ctl.nodesOk M Ctl.NonTermination.doc = false :=
+  Ctl.NonTermination.doc_not_ok M
 
 /-! ### the path-data scanner -/
 
@@ -157,6 +231,8 @@ def reviewedPanicSites : List (Str × Str × Str × Nat) := [
   (cs!"events.rs", cs!"OutputEvent::from", cs!"expect", 4),   -- matched Ok(..) two lines above; ranges from the event indices; UTF-8 validated in from_reader
   (cs!"events.rs", cs!"OutputList::blank_line_remover", cs!"index", 1),   -- matched Ok(..) two lines above; ranges from the event indices; UTF-8 validated in from_reader
   (cs!"events.rs", cs!"SvgElement::try_from", cs!"expect", 2),   -- matched Ok(..) two lines above; ranges from the event indices; UTF-8 validated in from_reader
+  (cs!"events.rs", cs!"XmlCharGuard::write", cs!"index", 5),   -- w[0..2] on the items of buf.windows(3), each of length 3
+  (cs!"events.rs", cs!"invalid_char_ref", cs!"index", 2),   -- rest[pos + 2..] after find("&#") (ASCII, so in range and on a boundary); rest[..end] with end from find(';')
   (cs!"events.rs", cs!"tagify_events", cs!"index", 2),   -- matched Ok(..) two lines above; ranges from the event indices; UTF-8 validated in from_reader
   (cs!"expression.rs", cs!"eval_expr", cs!"index", 4),   -- slices at positions returned by find on the same string
   (cs!"expression.rs", cs!"eval_vars", cs!"index", 4),   -- slices at positions returned by find on the same string
@@ -187,6 +263,8 @@ def reviewedRecursiveFns : List (Str × Str) := [
   (cs!"context.rs", cs!"TransformerContext::clipped_element_bbox"),   -- cycle check on the clip paths followed (seen list)
   (cs!"events.rs", cs!"InputEvent::from"),   -- From impl delegating to another From impl (no self call at run time)
   (cs!"events.rs", cs!"SvgElement::try_from"),   -- TryFrom impl delegating to the BytesStart one
+  (cs!"events.rs", cs!"XmlCharGuard::flush"),   -- Write impl delegating to the wrapped writer's method of the same name
+  (cs!"events.rs", cs!"XmlCharGuard::write"),   -- Write impl delegating to the wrapped writer's method of the same name
   (cs!"expression.rs", cs!"EvalState::lookup"),   -- cycle check (checked_vars): depth <= number of variables; exponential breadth is an open finding
   (cs!"expression.rs", cs!"ExprValue::flatten"),   -- depth of the value = nesting of list literals in the expression
   (cs!"expression.rs", cs!"ExprValue::to_string_vec"),   -- same
@@ -224,3 +302,11 @@ end Svgdx.Props.C01
 #print axioms Svgdx.Props.C01.retry_passes_bounded
 #print axioms Svgdx.Props.C01.panic_sites_reviewed
 #print axioms Svgdx.Props.C01.recursion_reviewed
+#print axioms Svgdx.Props.C01.control_skeleton_terminates
+#print axioms Svgdx.Props.C01.transform_terminates
+#print axioms Svgdx.Props.C01.control_skeleton_terminates_partial
+#print axioms Svgdx.Props.C01.loop_body_runs_bounded
+#print axioms Svgdx.Props.C01.retry_passes_decrease_measure
+#print axioms Svgdx.Props.C01.control_skeleton_terminates_instance
+#print axioms Svgdx.Props.C01.config_template_defeats_the_limits
+#print axioms Svgdx.Ctl.NonTermination.doc_fuel
